@@ -16,6 +16,7 @@ EXPLANATION = (
     "pos_value/neg_value, and the probability semirings inherit pos_value/neg_value that go through value(); V5 InvalidValue derives from "
     "ProbLogError; V7 the operations on the value path of that check (plus, negate, ad_complement as resolved through the class hierarchy for the probability and log-probability semirings) do not clamp (max/min/abs/round...): a clamp maps an out-of-range sum back into the domain; V6 coverage of the sum check: some validator on the compile or grounding path must range over the complete head list of an "
     "annotated disjunction and be able to raise InvalidValue. Probabilities given as non-numeric terms and API-supplied float weights are not decided."
+    " Added after seed round 8: V8 ad_complement has no exit from its summing loop."
 )
 TECHNIQUE = "static analysis: CFG dominance of bounds tests (must-facts), routing/who-validates rules"
 LEVEL_TEXT = EXPLANATION
